@@ -355,7 +355,7 @@ def run_check(pid, tier, seed):
     hashes = total["hashes"]
     samples = sample_programs(binp, fam_cfg, seed) if binp else []
     ev = {
-        "property_id": pid, "tier": tier, "seed": seed, "level": "proof",
+        "property_id": pid, "tier": tier, "seed": seed, "level": "proof" if obligations > 0 else "exploration",
         "coverage": {
             "obligations": obligations, "discharged": discharged if lean_ok else 0,
             "checker_cmd": "cd /verif/lean && lake build %s && lake env lean <generated #print axioms file>" % " ".join(modules),
